@@ -54,6 +54,10 @@ PROPS = {
                    "width and checked against the exactness identities on [0,1] with rational arithmetic (Simpson degree 3, trapezoid/midpoint degree 1); bin "
                    "centres/widths, antiderivative difference and numerical integration use the same edge slices; selection table; recalculation; HistFit "
                    "scaling by the number of entries iff density; the model is rebuilt from the current container on every path."),
+    "C07": ("c07", "Formula-shape rules for the parameter covariance (2 x errordef x inverse Hessian and the iminuit adapter's inverse relations), fixed-"
+                   "parameter bookkeeping (one index set for removal and re-insertion, inversion on the free sub-block, symmetrisation, scipy re-packing), "
+                   "correlation and symmetric errors, profile / contour targets (+1, sigma^2), profile function cost - target with pinning and re-minimisation, "
+                   "error band sqrt(p^T C p) with one mask; argument-slot rule over the minimizer, fitter, profiler and xy fit classes."),
 }
 
 
